@@ -299,6 +299,10 @@ def jobs_for(chk):
         kw = {"pi_method": pi, "avoid_boot_nan_key": i % 2 == 0, "nan_rows": i % 2 == 1, "via_client": i % 2 == 0}
         if i % 4 == 0:
             kw["threshold"] = rng.choice([0, 1, 50, 99, 100])
+        if i % 6 == 0:
+            # configured limits that are falsy / far from the defaults, observed through the client
+            kw["model_parameters"] = rng.choice([{"turnout_factor_lower": 0, "turnout_factor_upper": 5}, {"turnout_factor_lower": 0.0, "turnout_factor_upper": 2.0},
+                                                 {"turnout_factor_lower": 0.7, "turnout_factor_upper": 1.3}])
         jobs.append((rng.randint(0, 2**31), kw))
     return jobs
 
